@@ -112,7 +112,7 @@ func c07Scenarios(tier string) []*Scenario {
 		w.SetDeployment("ns", "e", 2)
 	}
 	var out []*Scenario
-	for _, size := range []int{1, 2} {
+	for _, size := range []int{0, 1, 2} {
 		size := size
 		out = append(out, mk(fmt.Sprintf("size%d/two-apps-filter-concurrently", size), func(w *world.World) []Thread {
 			setup(w)
@@ -132,6 +132,9 @@ func c07Scenarios(tier string) []*Scenario {
 				{"poolpost", func() { opStart(w); w.OpBound["poolpost"] = size; w.PoolPost("pl", size, true) }},
 				{"sched-x", schedOps(w, x.Key(), 2)}, {"sched-y", schedOps(w, y.Key(), 2)}}
 		}))
+		if size == 0 {
+			continue // the remaining scenario starts from a pod bound in the pool
+		}
 		out = append(out, mk4(fmt.Sprintf("size%d/unbind-and-preempt", size), func(w *world.World) []Thread {
 			setup(w)
 			w.SetPoolObj("pl", size)
@@ -157,6 +160,19 @@ func c07Scenarios(tier string) []*Scenario {
 		w.CreatePod(y)
 		return []Thread{
 			{"poolpost", func() { opStart(w); w.OpBound["poolpost"] = 2; w.PoolPost("pl", 2, true) }},
+			{"sched-x", schedOps(w, x.Key(), 2)}, {"sched-y", schedOps(w, y.Key(), 2)}}
+	}))
+	out = append(out, mk("shrink2to0/pool-update-then-other-app", func(w *world.World) []Thread {
+		// the pool is full, is shrunk to 0 while a pod of a second deployment sharing it is scheduled
+		setup(w)
+		w.SetPoolObj("pl", 1)
+		o, x, y := poolPod("d", 0), poolPod("e", 0), poolPod("e", 1)
+		w.CreatePod(o)
+		mustSchedule(w, o.Key())
+		w.CreatePod(x)
+		w.CreatePod(y)
+		return []Thread{
+			{"poolpost", func() { opStart(w); w.PoolPost("pl", 0, false) }},
 			{"sched-x", schedOps(w, x.Key(), 2)}, {"sched-y", schedOps(w, y.Key(), 2)}}
 	}))
 	out = append(out, mk("shrink2to1/pool-update", func(w *world.World) []Thread {
